@@ -17,7 +17,7 @@ c = json.load(open(os.path.join(d, "confirm.json")))
 m["confirmed"] = {"by": "tools/confirm_mutant.sh in a scratch worktree", "applies": bool(c.get("applies")),
                   "demo_rc_pristine": c.get("demo_pristine_rc"), "demo_rc_with_change": c.get("demo_mutant_rc"),
                   "test_suite": c.get("tests"), "repo_head": c.get("repo_head")}
-m["origin"] = "independent sub-agent given only the property text (wave 4)"
+m["origin"] = "independent sub-agent given only the property text (wave 5)"
 json.dump(m, open(os.path.join(d, "meta.json"), "w"), indent=1)
 os.remove(os.path.join(d, "confirm.json"))
 ok = c.get("applies") == 1 and c.get("demo_pristine_rc") == 0 and c.get("demo_mutant_rc") not in (0, None) and "46 passed" in c.get("tests", "")
